@@ -8,6 +8,8 @@ fn main() {
     let code = match args.engine.as_str() {
         "chain" => engines::chain::run(&args),
         "pool" => engines::pool::run(&args),
+        "crash" => engines::crash::run(&args),
+        "crash-child" => engines::crash::child(&args),
         other => {
             eprintln!("unknown engine {other}");
             3
